@@ -156,9 +156,11 @@ def ref_eval(g, vals, arrs):
             s = a[0]
             for x in a[1:]: s = s * x
             return s
-        if g[1] == "arr_mean": return float(np.mean(a))
-        if g[1] == "arr_median": return float(np.median(a))
-        if g[1] == "arr_stddev": return float(np.std(a))
+        # numpy scalars on purpose: the DSL's aggregates ARE np.mean/np.median/np.std, and numpy typing (np.bool_ + bool
+        # is a logical or) belongs to the operand values, not to the grouping
+        if g[1] == "arr_mean": return np.mean(a)
+        if g[1] == "arr_median": return np.median(a)
+        if g[1] == "arr_stddev": return np.std(a)
         if g[1] == "arr_size": return len(a) if g[2] != "mm" else 2
         if g[1] == "arr_rank": return sorted(a, reverse=True)[1]
         if g[1] == "dot":
